@@ -51,25 +51,40 @@ def run(ctx, rep):
     it.g['Constant'] = ConstantT
     ConstantT.__class__ = type('CT', (Obj,), {'__call__': lambda s_, c: ('Constant', c)})
     # constants and variables share one coordinate space: a and x both have coordinates (0, 0)
-    a, b, c, x = tuple(Obj(n, typ=ConstantT, spec=(i, 0), index=i, subscript=0) for i, n in enumerate('abc')) + (Obj('x', typ=VariableT, spec=(0, 0), index=0, subscript=0),)
+    # (lexical items are compared by value: the item cache is bounded, so an equal item may be a different object)
+    class P(Obj):
+        def __eq__(self, o):
+            return isinstance(o, P) and (o._typ, o.spec) == (self._typ, self.spec)
+
+        def __ne__(self, o):
+            return not self.__eq__(o)
+
+        def __hash__(self):
+            return hash((id(self._typ), self.spec))
+    a, b, c, x = tuple(P(n, typ=ConstantT, spec=(i, 0), index=i, subscript=0) for i, n in enumerate('abc')) + (P('x', typ=VariableT, spec=(0, 0), index=0, subscript=0),)
+    a_eq = P("a'", typ=ConstantT, spec=(0, 0), index=0, subscript=0)       # equal to a, another object
+    x_eq = P("x'", typ=VariableT, spec=(0, 0), index=0, subscript=0)
 
     # ---- Predicated
     class Params(tuple):
-        pass
+        __eq__ = lambda s_, o: s_ is o
+        __hash__ = lambda s_: id(s_)
     f_sub = m.func(LEX, 'Predicated.substitute')
     rep.consult(m.loc(LEX, f_sub) + ' Predicated.substitute')
     for params in ((a, b, a), (a, x), (b,), (x, x, a)):
-        for pold, pnew in itertools.product((a, b, x), (a, c, x)):
+        for pold, pnew in itertools.product((a, b, x, a_eq, x_eq), (a, c, x)):
             s = Params(params)
             s.params = tuple(params)
             s.predicate = lambda ps: ('PRED', tuple(ps))
             r = it.safe(f_sub, [s, pnew, pold])
-            want = s if pnew is pold else ('PRED', tuple(pnew if p is pold else p for p in params))
-            ok = r is want if pnew is pold else r == want
+            want = s if pnew == pold else ('PRED', tuple(pnew if p == pold else p for p in params))
+            ok = r is want if pnew == pold else (isinstance(r, tuple) and len(r) == 2 and r[0] == 'PRED' and len(r[1]) == len(want[1])
+                                                 and all(g is w or (g == w and w is not pnew) for g, w in zip(r[1], want[1])))
             rep.instance(R1, ok=ok, nontrivial=('Predicated.substitute', tuple(p._name for p in params), pold._name, pnew._name))
             if not ok:
                 rep.finding(R1, f'C15.R1/Predicated.substitute/{[p._name for p in params]}/{pnew._name}-for-{pold._name}', m.loc(LEX, f_sub), 'Predicated.substitute',
-                            f'substituting {pnew._name} for {pold._name} in params {[p._name for p in params]} gives {r!r}, expected {want!r}')
+                            f'substituting {pnew._name} for {pold._name} in params {[p._name for p in params]} gives {r!r}, expected {want!r}'
+                            + (' (the old parameter is given as an equal item that is another object)' if pold in (a_eq, x_eq) else ''))
     for attr, T in (('constants', ConstantT), ('variables', VariableT)):
         g = getter_or_attr(m, 'Predicated', attr)
         ok = isinstance(g, ast.FunctionDef)
